@@ -4,6 +4,20 @@ use serde_json::{json, Value};
 pub fn handle(req: &Value) -> Value {
     let which = req.get("which").and_then(|v| v.as_str()).unwrap_or("");
     match which {
+        "nav_state" => {
+            let s = libmathcat::verif::verif_nav_state();
+            match serde_json::from_str::<Value>(&s) {
+                Ok(v) => json!({"r":"ok","v":v}),
+                Err(e) => json!({"r":"err","kind":"hook-json","msg":format!("{}: {}", e, s)}),
+            }
+        }
+        "nav_log" => {
+            let entries: Vec<Value> = libmathcat::verif::verif_take_nav_log()
+                .iter()
+                .map(|s| serde_json::from_str::<Value>(s).unwrap_or(json!({"bad": s})))
+                .collect();
+            json!({"r":"ok","v":entries})
+        }
         _ => json!({"r":"err","kind":"bad-op","msg":format!("unknown hook '{}'", which)}),
     }
 }
